@@ -195,8 +195,97 @@ def shrink_candidates(case):
             yield mk(**base, oid=oid[:i] + "a" + oid[i + 1:])
 
 
+# ids whose prescribed path a file system would silently normalise, or that leave the storage root
+PATHY = ["c//d", "e/./f", "g/h/", "/abs", "a/../b", "x/", ".", "..", "a//", "//a", "a/b", "a/b/c", "./a", "a/.", "a/..", "a/./", "k///l"]
+
+
+def placement_phase(rep, tier, seed):
+    """where objects really land: for generated (extension, configuration, id) triples an object is created
+    and committed through the library; the object root found on disk (the directory holding the inventory
+    with that id), the root the library reports when the object is read back, and the path of the model
+    (= the extension's prescription, C11_map) must be one and the same string; if the commit is refused
+    nothing may have been written to the storage root"""
+    import re, shutil
+    from vlib import histprop, physprop
+    hbin = core.build_harness()
+    rng = random.Random(seed + 5)
+    n = 70 if tier == "quick" else 2500
+    base_keys = ("ext", "cfg", "alg", "ts", "nt", "short", "delim", "pad", "rev")
+    cases = []
+    while len(cases) < n:
+        c = gen_case(rng)
+        m = c["meta"]
+        if m["ext"] in ("0002", "0006", "0007") and rng.random() < 0.5:
+            oid = rng.choice(PATHY)
+            if m["delim"] and rng.random() < 0.7:
+                oid = "p" + m["delim"] + oid
+            c = mk(**{k: m[k] for k in base_keys}, oid=oid)
+        cases.append(c)
+    models = core.run_lines(core.drv_path(), [c["d"][0] for c in cases])
+    fails = []
+    live = histprop.LiveH(hbin)
+    try:
+        resets = 0
+        for c, ml in zip(cases, models):
+            m = c["meta"]
+            model = ml.split("|")[0].replace("model: ", "").strip()
+            spec = ml.split("|")[1].replace("spec: ", "").strip() if "|" in ml else model
+            if not model.startswith("cfg=ok") or model != spec:
+                continue          # invalid configurations and C11-K1 ids are the protocol run's business
+            if m["ext"] in ("0006", "0007") and (nonsimple(m["id"]) or nonsimple(m["delim"])):
+                continue
+            oid = m["id"]
+            if not oid.strip() or oid != oid.strip() or "\x00" in oid:
+                continue          # create_object trims ids; the accepted id is then a different one
+            live.ask("reset")
+            resets += 1
+            root = os.path.join(live.base, "r%d" % resets, "root")
+            r = live.ask("init %s %s 1.1 default" % (EXT[m["ext"]], hx(json.dumps(m["cfg"]))))
+            rep.evaluations += 1
+            if not r.startswith("ok"):
+                fails.append("configuration %s accepted by the model and the specification is refused by init: %s" % (json.dumps(m["cfg"]), r[:80]))
+                continue
+            live.ask("mkfile %s %s" % (hx("f.txt"), b"x".hex()))
+            r1 = live.ask("new %s sha512 %s 0 -" % (hx(oid), hx("content")))
+            r2 = live.ask("cpx %s 0 %s %s" % (hx(oid), hx("/"), hx("f.txt")))
+            before = physprop.scan_objects(root)
+            nfiles_before = sum(len(fs) for d, _, fs in os.walk(root) if "rocfl-staging" not in d)
+            r3 = live.ask("commit %s - - - - - 0" % hx(oid))
+            after = physprop.scan_objects(root)
+            want = core.unhx(model.split("map=ok:")[1]).decode("utf8", "replace") if "map=ok:" in model else None
+            kind = "committed" if r3.startswith("ok") else "refused"
+            rep.classes.add("place|%s|%s|%s" % (m["ext"], kind, features(m)))
+            rep.count("placement:%s:%s" % (m["ext"], kind))
+            if r3.startswith("ok"):
+                found = [r_ for r_, i in after.items() if i.get("id") == oid]
+                if want is None:
+                    fails.append("ext=%s cfg=%s: id %r cannot be mapped, yet it was committed at %r" % (m["ext"], json.dumps(m["cfg"]), oid, found))
+                elif found != [want]:
+                    fails.append("ext=%s cfg=%s: id %r is stored at %r, the extension prescribes %r" % (m["ext"], json.dumps(m["cfg"]), oid, found, want))
+                else:
+                    rv = live.ask("ver %s -" % hx(oid))
+                    shown = json.loads(rv[3:]).get("root") if rv.startswith("ok ") else None
+                    if shown is None or not shown.endswith("/root/" + want):
+                        fails.append("ext=%s: id %r is stored at %r but read back from / shown as %r" % (m["ext"], oid, want, shown if shown else rv[:60]))
+            else:
+                nfiles_after = sum(len(fs) for d, _, fs in os.walk(root) if "rocfl-staging" not in d)
+                if after != before or nfiles_after != nfiles_before:
+                    fails.append("ext=%s: the commit of id %r was refused (%s) but the storage root changed" % (m["ext"], oid, r3.split(" ")[0]))
+    finally:
+        live.close()
+    seen = set()
+    for f in fails:
+        key = re.sub(r"[0-9a-f]{8,}|\d+", "#", f)[:60]
+        if key in seen or len(seen) >= 3:
+            continue
+        seen.add(key)
+        rep.violation(dict(kind="oracle-failure", oracle="placement", what=f))
+    rep.extra["placement_failures"] = len(fails)
+
+
 def run(rep, tier, seed, proof_broken=False):
     core.standard_run(rep, __import__("vlib.props.C11", fromlist=["x"]), tier, seed, proof_broken)
+    placement_phase(rep, tier, seed)
 
 
 def replay(rep, payload):
